@@ -24,7 +24,7 @@ import re
 
 KEYWORDS = ('define', 'ghost', 'assume', 'func', 'mode', 'requires', 'ensures', 'let', 'calls', 'modifies', 'loop',
             'effect', 'serves', 'lp', 'at', 'lemma', 'trusted', 'iterates', 'spawns', 'note', 'inline', 'twin',
-            'pure', 'opaque', 'check', 'havoc', 'frame')
+            'pure', 'opaque', 'check', 'havoc', 'frame', 'reenters')
 
 TOK = re.compile(r'\s*(?:(\d+[a-zA-Z_0-9]*)|([A-Za-z_$][A-Za-z_0-9$]*)|(==>|<==>|==|!=|<=|>=|&&|\|\||<<|>>|&\^|::|->|[-+*/%&|^!<>()\[\]{}.,:=?])|("(?:[^"\\]|\\.)*"))')
 
@@ -367,7 +367,10 @@ def parse_file(lines, fname, pkg, sf=None):
                 c.expr = parse_expr(m.group(2))
                 c.etext = m.group(2)
             elif kind == 'calls':
-                # calls f(args) -> (a, b)
+                # calls [locked] f(args) -> (a, b)
+                if t.startswith('locked '):
+                    c.extra['locked'] = True
+                    t = t[len('locked '):]
                 m = re.match(r'^(.*?)\s*->\s*\(([^)]*)\)\s*$', t)
                 if m:
                     c.extra['results'] = [x.strip() for x in m.group(2).split(',') if x.strip()]
@@ -416,7 +419,7 @@ def parse_file(lines, fname, pkg, sf=None):
             elif kind == 'modifies':
                 c.extra['items'] = [x.strip() for x in t.split(',') if x.strip()]
             elif kind in ('mode', 'effect', 'serves', 'lp', 'trusted', 'note', 'inline', 'twin', 'pure', 'opaque',
-                          'iterates', 'spawns', 'havoc', 'frame'):
+                          'iterates', 'spawns', 'havoc', 'frame', 'reenters'):
                 c.extra['arg'] = t.strip()
             cur.clauses.append(c)
     return sf
